@@ -13,7 +13,7 @@ LEVEL_TEXT = ("The headline (numeric soundness of every transfer function for ev
               "graph with a vertex id of another value, (r7) twin statements that propagate one new edge to both bounds use the "
               "same path weight, (r10) dual sets order by reverse inclusion and test membership as `this <= {e}`, (r11) the Boolean-numerical "
               "product marks a variable as unchanged only after the constraints cached over it were dropped (or the mark was known)."
-              " Zones / octagons give up on an expression with a term they cannot represent instead of dropping it; the value-partitioning merge pass re-examines a merged partition (symbolic iterator positions) and reads partition intervals as closed.")
+              " Zones / octagons give up on an expression with a term they cannot represent instead of dropping it; the value-partitioning merge pass re-examines a merged partition (symbolic iterator positions) and reads partition intervals as closed. The Boolean-numerical product negates a remembered singleton only if it is a definition (r21, known F113) and hands its numerical part only constraints that mention no Boolean variable (r22, known F114).")
 ASSUMPTIONS = ["scalar operations are sound (C08)", "closure / constraint-propagation algorithms of the relational domains are correct (not decided)"]
 
 OUT_OF_FRAGMENT = {k: "kills the lhs through vertex / term-table bookkeeping the rule does not model"
